@@ -28,11 +28,11 @@ def s_own(v):
     and sub/Manifest with DIST, IGNORE, EBUILD c (symbolic file), AUX files/x"""
     c = Ctx()
     fs = c.fs = ModelFS(written_sizes=[v.size('w1'), v.size('w2')])
-    mode = v.choice('mode', 5)
+    mode = v.choice('mode', 6)
     (a_size, a_dig) = v.filetoken('a_size', 'a_dig')
     (m_size, m_dig) = v.filetoken('m_size', 'm_dig')
     (c_size, c_dig) = v.filetoken('c_size', 'c_dig')
-    if mode == 3:
+    if mode in (3, 5):
         # the symbolic variable of this mode is the fault position: attributes concrete
         a_size, a_dig, m_size, m_dig, c_size, c_dig = 2, 'A', 5, 'Q', 4, 'C'
     ck = v.choice('c_kind', 3)          # absent, file, directory (-> failing update)
@@ -68,7 +68,15 @@ def s_own(v):
     #                                     3 update hit by an I/O error, then discarded
     #                                     4 verify + lookups, then update of sub + save on
     #                                       the same loader
+    #                                     5 update + save where the k-th dump of the save
+    #                                       step fails (disk full)
     c.fault_at = v.int('fault_at', 0, 70)
+    c.dump_fault = v.int('dump_fault', 0, 3)
+    if mode == 5:
+        # stale entries, so that both Manifests are rewritten
+        fs.node('a').digest = 'A2'
+        if ck == 1:
+            fs.node('sub/c').digest = 'C2'
     c.xdev = v.bool('sub_other_dev')
     c.upath = ('', 'sub')[v.choice('up', 2)]
     c.force = v.bool('force')
@@ -84,7 +92,7 @@ def snapshot(fs):
             r = posixpath.join(rel, name)
             if ch.kind == 'dir':
                 walk(ch, r)
-            elif ch.kind == 'file' and ch.is_manifest:
+            elif ch.kind == 'file' and ch.is_manifest and name.startswith('Manifest'):
                 mans[r] = [copy_entry(e) for e in ch.entries or []]
             else:
                 data[r] = (ch, ch.kind, ch.size, ch.digest, ch.mtime)
@@ -131,6 +139,10 @@ def run_ops(c):
                 c.log_before_save = [*c.fs.log]
                 if c.mode == 2:
                     m.save_manifests(force=c.force)
+                    out = 'saved'
+                if c.mode == 5:
+                    c.fs.dump_fault_at = c.dump_fault
+                    m.save_manifests(force=True)
                     out = 'saved'
         except (GematoException, OSError) as e:
             out = 'error:' + type(e).__name__
@@ -181,15 +193,33 @@ def judge_ops(c, out):
     # that fails or is discarded
     if c.log_before_save:
         return False, interesting
+    if c.mode == 5 and c.fs.dump_fault_fired is not None:
+        # the save step failed half-way: Manifest files may be damaged (crash atomicity is
+        # not claimed), but still nothing else was created, replaced or removed
+        for op in fs.log:
+            for pth in op[1:]:
+                if isinstance(pth, str) and pth.startswith('/') and \
+                        not posixpath.basename(pth).startswith('Manifest'):
+                    return False, True
+        return out != 'saved', True
     if out != 'saved':
         if fs.log:
             return False, interesting
         return (sorted(mans0) == sorted(mans1)
                 and all(same_list(mans0[p], mans1[p]) for p in mans0)), interesting
     # the save step writes Manifest files only
+    # (a scratch file that did not exist before and is gone afterwards - renamed onto a
+    # Manifest or removed - is not held against an implementation; one that is left behind,
+    # or any pre-existing file that is written to, is caught here or by the snapshot above)
     for op in fs.log:
-        if posixpath.basename(op[1]) not in MANIFEST_NAMES:
-            return False, interesting
+        for pth in op[1:]:
+            if not (isinstance(pth, str) and pth.startswith('/')):
+                continue
+            if posixpath.basename(pth).startswith('Manifest'):
+                continue
+            rel = posixpath.relpath(pth, '/r')
+            if rel in data0 or rel in data1:
+                return False, interesting
     for p in mans0:
         if p not in mans1:
             return False, interesting
@@ -226,10 +256,12 @@ def judge_ops(c, out):
 
 def conditions(tier):
     cs = []
-    parts = [('mode', range(5)), ('up', range(2)), ('c_kind', range(3)),
+    parts = [('mode', range(6)), ('up', range(2)), ('c_kind', range(3)),
              ('force', (False, True))]
     for fx in partitions(parts):
         if fx['mode'] not in (2, 4) and fx['force']:
+            continue
+        if fx['mode'] == 5 and (fx['up'] == 1 or fx['c_kind'] == 2):
             continue
         if fx['mode'] == 4 and fx['up'] == 0:
             continue
@@ -240,7 +272,10 @@ def conditions(tier):
             descr='sequence of loader operations on the model with a write log: (0) verify '
                   '+ lookups, (1) update without save, (2) update + save, (3) update hit by an '
                   'OSError at a symbolic call position or by a device boundary, then '
-                  'discarded; sub/c absent, a file, or a directory (failing update)',
+                  'discarded, (4) verify + lookups then update of sub + save on the same '
+                  'loader, (5) update + forced save whose k-th dump fails with ENOSPC: still '
+                  'no file other than a Manifest is created, replaced or removed; sub/c '
+                  'absent, a file, or a directory (failing update)',
             bounds='S-own: top Manifest with TIMESTAMP/DIST/IGNORE/DATA/MISC/EBUILD/MANIFEST '
                    'entries, sub/Manifest with DIST/IGNORE/EBUILD/AUX; files a, oth/m, sub/c '
                    'with symbolic size/digest (stale or not); optional new file; update of '
